@@ -45,6 +45,13 @@ CHECKS = {
             "Relation rejection is read permissively (any participating state Removing the state or one of its transitive Requires). "
             "Handlers do not mutate in this check.",
             "property-based testing (rapid), invariant over the traced transition sequence", "DESIGN.md §5 C07"),
+    "C11": ("exploration",
+            "Differential property-based testing between re-executions: every generated (schema, table, history) is executed 64 (quick) / 256 "
+            "(thorough) times on fresh machines and the full observable fingerprint - results, machine time after every step, handler-call "
+            "sequence with target order - must be identical across all runs.",
+            "Map-order dependence is detected probabilistically (each re-execution sees fresh Go map iteration orders); a dependence that "
+            "needs a map of >8 entries is out of reach of the generated schemas.",
+            "differential property-based testing (rapid): N re-executions of the same case must agree", "DESIGN.md §5 C11"),
 }
 
 NOT_YET = "check not built yet in this session (planned, see DESIGN.md §9)"
